@@ -110,6 +110,7 @@ func check(c Case) *vfrun.Failure {
 	}
 	defer os.RemoveAll(root)
 	for n, content := range c.Files {
+		_ = os.MkdirAll(filepath.Dir(filepath.Join(dir, n)), 0o755)
 		_ = os.WriteFile(filepath.Join(dir, n), []byte(content), 0o644)
 	}
 	_ = os.WriteFile(filepath.Join(dir, "gqlgen.yml"), []byte(c.Config.YAML()), 0o644)
@@ -134,6 +135,12 @@ func check(c Case) *vfrun.Failure {
 			if i == 0 {
 				// whether this project generates at all is C17's business
 				vfrun.Label("discarded:generation-fails(C17)")
+				if c.Config.SchemaGlob != "" {
+					vfrun.Label("discarded:generation-fails(C17):same-base-name-files")
+					if os.Getenv("VF_DEBUG") != "" {
+						_ = os.WriteFile(os.Getenv("VF_DEBUG"), []byte(c.Config.YAML()+"\n"+out.String()), 0o644)
+					}
+				}
 				return nil
 			}
 			return vfrun.Failf("determinism.later-run-fails", "run %d (%s) fails although run 0 succeeded: %v\n%s", i, r.name, err, tail(out.String()))
@@ -179,6 +186,9 @@ func check(c Case) *vfrun.Failure {
 		}
 	}
 	vfrun.Label("exec:" + c.Config.ExecLayout)
+	if c.Config.SchemaGlob != "" {
+		vfrun.Label("same-base-name-files:exec:" + c.Config.ExecLayout)
+	}
 	vfrun.Label("resolver:" + c.Config.ResolverLayout)
 	return nil
 }
@@ -214,7 +224,14 @@ func loadSchema(files map[string]string) (*ast.Schema, error) {
 }
 
 func gen(t *rapid.T) Case {
-	s := sdlgen.Generate(t, sdlgen.Options{Files: rapid.IntRange(1, 3).Draw(t, "files"), Roots: true, Hostile: rapid.Bool().Draw(t, "hostile"), DeprecatedInputs: true, MaxTypes: 14, ExecDirectives: true, Cycles: true})
+	// a third of the multi-file projects keep their schema files under one base name in different
+	// directories, which the follow-schema layouts merge into one generated file
+	sameBase := rapid.IntRange(0, 2).Draw(t, "samebase") == 0
+	files := rapid.IntRange(1, 3).Draw(t, "files")
+	if sameBase {
+		files = rapid.IntRange(2, 3).Draw(t, "files-samebase")
+	}
+	s := sdlgen.Generate(t, sdlgen.Options{SameBase: sameBase, Files: files, Roots: true, Hostile: rapid.Bool().Draw(t, "hostile"), DeprecatedInputs: true, MaxTypes: 14, ExecDirectives: true, Cycles: true})
 	schema, err := loadSchema(s.Files)
 	if err != nil {
 		t.Skip("invalid schema")
@@ -240,6 +257,16 @@ func gen(t *rapid.T) Case {
 		vfrun.Label("schema:non-null-object-cycle+value-fields")
 	}
 	follow := c.Config.ExecLayout == "follow-schema" || c.Config.ResolverLayout == "follow-schema"
+	if sameBase {
+		c.Config.SchemaGlob = "./**/*.graphqls"
+		if rapid.Bool().Draw(t, "samebase-follow") {
+			c.Config.ExecLayout = "follow-schema"
+		}
+		follow = follow || c.Config.ExecLayout == "follow-schema"
+		if len(s.Files) >= 2 && follow {
+			vfrun.Label("same-base-name-files+follow-schema")
+		}
+	}
 	if len(s.Files) >= 2 && follow {
 		vfrun.NonTrivial(s.SDL() + c.Config.YAML())
 		vfrun.Label("multi-file+follow-schema")
